@@ -52,7 +52,7 @@ def h01a_shards(tier):
     shapes = [(1,), (2,), (3,), (1, 1), (2, 1), (1, 2), (1, 1, 1)]
     if tier == "thorough":
         shapes += [(4,), (2, 2), (3, 1), (1, 3), (1, 2, 1), (2, 1, 1), (1, 1, 2)]
-    out = [{"shape": s, "_timeout": 240 if sum(s) >= 3 else 60, "_path_timeout": 40} for s in shapes]
+    out = [{"shape": s, "_timeout": 1800 if sum(s) >= 4 else (240 if sum(s) >= 3 else 60), "_path_timeout": 40} for s in shapes]
     out.append({"shape": (), "_timeout": 30})
     return out
 
@@ -170,7 +170,8 @@ def h01e_pre(buf, off):
 
 def h01e_shards(tier):
     top = 6 if tier == "quick" else 8
-    return [{"len": k, "_timeout": 120 if k <= 6 else 600, "_path_timeout": 30} for k in range(0, top + 1)]
+    # (measured: 17 s, 55 s, 227 s for 5, 6, 7 octets: x4 per octet)
+    return [{"len": k, "_timeout": 120 if k <= 6 else (600 if k == 7 else 2700), "_path_timeout": 30} for k in range(0, top + 1)]
 
 
 # ---------------------------------------------------------------- H01f compressed wire at the real limits
